@@ -22,8 +22,12 @@ def main():
     pid, k = sys.argv[1], sys.argv[2]
     checks = [c for c in sys.argv[3:] if not c.startswith("--")] or [pid]
     wt = "/tmp/wt/%s" % pid
-    src = "%s/SEEDED/%s" % (wt, k)
-    dst = "%s/seeded/%s-%s" % (VERIF, pid, k)
+    if k.startswith("r2:"):
+        src = "%s/SEEDED2/%s" % (wt, k[3:])
+        dst = "%s/seeded/%s-r2-%s" % (VERIF, pid, k[3:])
+    else:
+        src = "%s/SEEDED/%s" % (wt, k)
+        dst = "%s/seeded/%s-%s" % (VERIF, pid, k)
     os.makedirs(dst, exist_ok=True)
     prev = {}
     if os.path.exists(os.path.join(dst, "meta.json")):
